@@ -34,7 +34,13 @@ type c40Actor struct {
 
 // c40Program is the generated case.
 type c40Program struct {
+	Focus  int // index into c40Focus: the path most steps of this program gang up on
 	Actors []c40Actor
+}
+
+// c40Focus: (media path, name of the configuration it falls under)
+var c40Focus = [][2]string{
+	{"s0", "s0"}, {"s0", "s0"}, {"s1", "s1"}, {"aa", "aa"}, {"dyn/a", "~^dyn/(.+)$"}, {"x0", "all_others"}, {"added0", "added0"},
 }
 
 func (s c40Step) String() string {
@@ -65,6 +71,7 @@ func (s c40Step) String() string {
 
 func (p c40Program) String() string {
 	b := &strings.Builder{}
+	fmt.Fprintf(b, "focus=%s ", c40Focus[p.Focus][0])
 	for i, a := range p.Actors {
 		if i > 0 {
 			b.WriteString(" || ")
@@ -92,7 +99,7 @@ var (
 var c40OpHasArg = map[string]bool{
 	"write": true, "writepkt": true, "kick": true, "metrics": true,
 	"patchHot": true, "patchCold": true, "globalCold": true, "globalServers": true,
-	"addPath": true, "replacePath": true, "pathDefaults": true, "nop": false,
+	"addPath": true, "replacePath": true, "pathDefaults": true,
 }
 
 type c40OpSpec struct {
@@ -174,7 +181,7 @@ func c40GenYield(t *rapid.T) int {
 	return rapid.SampledFrom([]int{0, 0, 0, 1, 1, 1, 2, 2, 3, 4, 5, 6}).Draw(t, "yield")
 }
 
-func c40GenStep(t *rapid.T, kind string) c40Step {
+func c40GenStep(t *rapid.T, kind string, focus int) c40Step {
 	menu := c40Menus[kind]
 	var pool []int
 	for i, m := range menu {
@@ -185,7 +192,16 @@ func c40GenStep(t *rapid.T, kind string) c40Step {
 	m := menu[rapid.SampledFrom(pool).Draw(t, "op")]
 	s := c40Step{Op: m.op, Yield: c40GenYield(t)}
 	if m.path != nil {
-		s.Path = rapid.SampledFrom(m.path).Draw(t, "path")
+		// two out of three path arguments are the program's focus path (or its configuration): operations of
+		// different actors must meet on the same path object for most races/deadlocks to be reachable at all
+		if rapid.IntRange(0, 2).Draw(t, "onFocus") > 0 {
+			s.Path = c40Focus[focus][0]
+			if &m.path[0] == &c40ConfNames[0] {
+				s.Path = c40Focus[focus][1]
+			}
+		} else {
+			s.Path = rapid.SampledFrom(m.path).Draw(t, "path")
+		}
 	}
 	if m.argMax > 0 {
 		s.Arg = rapid.IntRange(0, m.argMax).Draw(t, "arg")
@@ -196,7 +212,7 @@ func c40GenStep(t *rapid.T, kind string) c40Step {
 	return s
 }
 
-func c40GenActor(t *rapid.T, kind string, hasStopper bool) c40Actor {
+func c40GenActor(t *rapid.T, kind string, focus int) c40Actor {
 	a := c40Actor{Kind: kind}
 	maxSteps := 9
 	if kit.Thorough() {
@@ -211,10 +227,9 @@ func c40GenActor(t *rapid.T, kind string, hasStopper bool) c40Actor {
 		a.Steps = append(a.Steps, c40Step{Op: "shutdown", Yield: c40GenYield(t)})
 		return a
 	}
-	_ = hasStopper
 	n := rapid.IntRange(3, maxSteps).Draw(t, "steps")
 	for i := 0; i < n; i++ {
-		a.Steps = append(a.Steps, c40GenStep(t, kind))
+		a.Steps = append(a.Steps, c40GenStep(t, kind, focus))
 	}
 	return a
 }
@@ -224,6 +239,7 @@ func c40GenActor(t *rapid.T, kind string, hasStopper bool) c40Actor {
 func c40GenProgram(t *rapid.T) c40Program {
 	n := rapid.IntRange(2, 6).Draw(t, "actors")
 	var p c40Program
+	p.Focus = rapid.IntRange(0, len(c40Focus)-1).Draw(t, "focus")
 	stopper := false
 	for i := 0; i < n; i++ {
 		var kind string
@@ -242,7 +258,7 @@ func c40GenProgram(t *rapid.T) c40Program {
 		if kind == "stopper" {
 			stopper = true
 		}
-		p.Actors = append(p.Actors, c40GenActor(t, kind, stopper))
+		p.Actors = append(p.Actors, c40GenActor(t, kind, p.Focus))
 	}
 	return p
 }
